@@ -495,7 +495,7 @@ pub fn run(ctx: &mut Ctx) {
         let _ = catch_unwind(AssertUnwindSafe(|| case(ctx, seed)));
         return;
     }
-    for _ in 0..ctx.budget(150, 6000) {
+    for _ in 0..ctx.budget(150, 3500) {
         let s = ctx.rng.next_u64();
         let r = catch_unwind(AssertUnwindSafe(|| case(ctx, s)));
         if let Err(e) = r {
